@@ -1,6 +1,6 @@
 (* C14 — State export/import, Raft snapshots read offline, backup rotation, peerstore file round-trip.
    Statements only; every proof is `exact <lemma of Proofs/C14_*.v>`. *)
-From V Require Import Base.Common Model.C14_Backup Model.C14_Peerstore Model.C14_State Model.C14_Check Proofs.C14_Backup Proofs.C14_Peerstore Proofs.C14_State.
+From V Require Import Base.Common Model.C14_Backup Model.C14_Peerstore Model.C14_State Model.C14_Check Proofs.C14_Backup Proofs.C14_Peerstore Proofs.C14_State Proofs.C14_Monitor.
 From Coq Require Import Permutation.
 
 (* ---------------- backup rotation (data_helper.go makeBackup, raft.go CleanupRaft) ---------------- *)
@@ -192,3 +192,172 @@ Example pinset_example :
   let s := [(3, (1, 0)); (5, (2, 0))]%N in
   keys_nodup s /\ no_origins s /\ s <> [] /\ import_lines (export (@rev entry) s) [] = Some [(3, (1, 0)); (5, (2, 0))]%N.
 Proof. repeat split; try discriminate. repeat constructor; simpl; intuition discriminate. Qed.
+
+(* ---------------- the run-time monitors of Model/C14_Check.v and the theorems above ---------------- *)
+(* For each case kind: (completeness) a case annotated with the model's own outputs raises no code, for every input allowed
+   by the stated guards - so an implementation that agrees with the model on an input satisfies every monitored clause on it,
+   and no monitor can alarm on behaviour the model allows; (soundness) a case on which a monitor's code is absent satisfies
+   the Prop-level clause the code stands for. Definitions of the model outputs and the Prop-level readings: Proofs/C14_Monitor.v. *)
+
+(* backup rotation (codes 1, 10, 11): every retention keep >= 1, every listed set of at least keep pre-existing backups
+   (the monitors only see the listed window; the harness lists old.0..old.7 with keep <= 6), every history of steps *)
+Theorem backup_model_passes_monitor id keep olds0 sts : 1 <= keep -> keep <= length olds0 ->
+  check_case (id, PBackup keep olds0 sts (bk_model_obs keep (None :: olds0) sts)) = [].
+Proof. exact (bk_model_passes_monitor_l id keep olds0 sts). Qed.
+Print Assumptions backup_model_passes_monitor.
+
+(* no code 10 and no code 11: every step is a rotation of the listing the previous step left (bk_steps_spec: data folder gone,
+   the rotated folder is old.0, the contiguous prefix moved up by one below keep, the rest untouched) and after every step
+   the folders rotated so far are old.0, old.1, ... newest first below keep (bk_hist_spec) *)
+Theorem backup_monitor_sound id keep olds0 sts obs :
+  (forall c, In c (check_case (id, PBackup keep olds0 sts obs)) -> snd (fst c) <> 10%N /\ snd (fst c) <> 11%N) ->
+  bk_steps_spec keep (None :: olds0) sts obs /\ bk_hist_spec keep [] sts obs.
+Proof. exact (bk_monitor_sound_l id keep olds0 sts obs). Qed.
+Print Assumptions backup_monitor_sound.
+
+Example backup_monitor_example :
+  let olds0 := [Some (10, Some 1); Some (11, None); None]%N in
+  let sts := [(Some (7, Some 2), true); (Some (8, None), true); (Some (9, None), false)]%N in
+  1 <= 2 /\ 2 <= length olds0 /\
+  bk_model_obs 2 (None :: olds0) sts =
+    [[None; Some (7, Some 2); Some (10, Some 1); None]; [None; Some (7, Some 2); Some (10, Some 1); None];
+     [None; Some (9, None); Some (7, Some 2); None]]%N /\
+  (* a listing that lost the shifted folder is rejected by the step monitor and by the history monitor *)
+  check_case (0%N, PBackup 2 olds0 [(Some (7, Some 2), true)] [[None; Some (7, Some 2); None; None]])%N = [(0, 1, 0); (0, 10, 0)]%N /\
+  check_case (0%N, PBackup 2 olds0 [(Some (7, Some 2), true); (Some (9, Some 3), true)]
+                  [[None; Some (7, Some 2); Some (10, Some 1); None]; [None; Some (9, Some 3); Some (10, Some 1); None]])%N
+    = [(0, 1, 0); (0, 10, 0); (0, 11, 0)]%N.
+Proof. cbv zeta. repeat split; try (cbn; lia); vm_compute; reflexivity. Qed.
+
+(* peerstore, arbitrary files (codes 1, 12): every file, host identity and query - no guard at all *)
+Theorem peerstore_file_model_passes_monitor id self ls query :
+  check_case (id, PPsFile self ls query (load_lines ls) (ps_file_model_infos self ls query)) = [].
+Proof. exact (ps_file_model_passes_monitor_l id self ls query). Qed.
+Print Assumptions peerstore_file_model_passes_monitor.
+
+Theorem peerstore_file_monitor_sound id self ls query obs_load obs_infos :
+  (forall c, In c (check_case (id, PPsFile self ls query obs_load obs_infos)) -> snd (fst c) <> 12%N) ->
+  (forall a, In a obs_load -> a <> None) /\ obs_infos <> None.
+Proof. exact (ps_file_monitor_sound_l id self ls query obs_load obs_infos). Qed.
+Print Assumptions peerstore_file_monitor_sound.
+
+(* peerstore, save on host 1 / load on host 2 (codes 1, 13): every peerstore host 1 can have built (address sets, priorities),
+   every duplicate-free query, host 2 not among the saved peers and asked for exactly the saved peers in any order *)
+Theorem peerstore_save_model_passes_monitor id self1 self2 pre query query2 :
+  let obs0 := ps_save_model_obs0 self1 pre query in
+  NoDup query -> ~ In self2 (map fst obs0) -> Permutation query2 (map fst obs0) ->
+  check_case (id, PPsSave self1 self2 pre query query2 obs0 (save_lines obs0) (load_lines (save_lines obs0))
+                          (reload self2 obs0 query2)) = [].
+Proof. exact (ps_save_model_passes_monitor_l id self1 self2 pre query query2). Qed.
+Print Assumptions peerstore_save_model_passes_monitor.
+
+(* no code 13: the loaded addresses group into, and host 2 reports, the same peers in the same (priority) order as host 1
+   saved, each with the same set of addresses *)
+Theorem peerstore_save_monitor_sound id self1 self2 pre query query2 obs0 obs_lines obs_load obs2 :
+  (forall c, In c (check_case (id, PPsSave self1 self2 pre query query2 obs0 obs_lines obs_load obs2)) -> snd (fst c) <> 13%N) ->
+  exists g l2, group_loaded obs_load = Some g /\ obs2 = Some l2 /\ same_peers_same_addrs g obs0 /\ same_peers_same_addrs l2 obs0.
+Proof. exact (ps_save_monitor_sound_l id self1 self2 pre query query2 obs0 obs_lines obs_load obs2). Qed.
+Print Assumptions peerstore_save_monitor_sound.
+
+Example peerstore_monitor_example :
+  let pre := [(5%N, [(3%N, false); (1%N, false)], Some 1); (7%N, [(2%N, true); (4%N, false)], Some 0); (1%N, [(6%N, false)], None)] in
+  let obs0 := ps_save_model_obs0 1 pre [5; 7; 1]%N in
+  obs0 = [(7, [(2, true)]); (5, [(1, false); (3, false)])]%N /\
+  NoDup [5; 7; 1]%N /\ ~ In 9%N (map fst obs0) /\ Permutation [5; 7]%N (map fst obs0) /\
+  (* a reload that swaps the priority order is rejected *)
+  check_case (0%N, PPsSave 1 9 pre [5; 7; 1] [5; 7] obs0 (save_lines obs0) (load_lines (save_lines obs0))
+                          (Some [(5, [(1, false); (3, false)]); (7, [(2, true)])]))%N = [(0, 1, 0); (0, 13, 0)]%N.
+Proof. cbv zeta. split; [reflexivity|]. split; [repeat constructor; simpl; intuition discriminate|].
+  split; [simpl; intuition discriminate|]. split; [apply perm_swap|vm_compute; reflexivity]. Qed.
+
+(* dsstate Marshal / Unmarshal (codes 1, 14): every cid-sorted pinset (how the harness writes pinsets), every datastore order *)
+Theorem marshal_model_passes_monitor id ord pins : order_oracle ord -> cid_sorted pins ->
+  check_case (id, PMarshal pins (Some (sorted_entries (unmarshal (marshal ord pins) [])))) = [].
+Proof. exact (marshal_model_passes_monitor_l id ord pins). Qed.
+Print Assumptions marshal_model_passes_monitor.
+
+Theorem marshal_monitor_sound id pins obs :
+  (forall c, In c (check_case (id, PMarshal pins obs)) -> snd (fst c) <> 14%N) -> obs = Some pins.
+Proof. exact (marshal_monitor_sound_l id pins obs). Qed.
+Print Assumptions marshal_monitor_sound.
+
+(* snapshots (codes 1, 15, 10): every retention keep >= 1, every table the harness's interner can produce (one row per number,
+   rows cid-sorted, no two rows with the same content), at least keep listed backups, every number in the listing and in the
+   operations a row of the table, every history of SnapshotSave / CleanupRaft / bare folder / newer snapshot / peer start *)
+Theorem snapshot_model_passes_monitor id keep t olds0 ops : 1 <= keep -> keep <= length olds0 -> table_ok t ->
+  listing_ok t olds0 -> (forall op, In op ops -> op_ok t op) ->
+  check_case (id, PSnap keep t olds0 ops (snap_model_obs keep t (None :: olds0) ops)) = [].
+Proof. exact (snap_model_passes_monitor_l id keep t olds0 ops). Qed.
+Print Assumptions snapshot_model_passes_monitor.
+
+(* no code 15 and no code 10: snap_spec - after a save (or a newer snapshot) both offline readings are the saved pinset; a peer
+   started on a snapshot lists it; cleaning / saving over data that held a snapshot leaves it as old.0, shifts the prefix below
+   keep, touches nothing else *)
+Theorem snapshot_monitor_sound id keep t olds0 ops obs :
+  (forall c, In c (check_case (id, PSnap keep t olds0 ops obs)) -> snd (fst c) <> 15%N /\ snd (fst c) <> 10%N) ->
+  snap_spec keep t (None :: olds0) ops obs.
+Proof. exact (snap_monitor_sound_l id keep t olds0 ops obs). Qed.
+Print Assumptions snapshot_monitor_sound.
+
+Example snapshot_monitor_example :
+  let t := [(0, []); (1, [(3, (1, 0)); (5, (2, 0))]); (2, [(3, (1, 0))])]%N in
+  let olds0 := [Some (4, Some 2); None]%N in
+  let ops := [OSave 1; OMore 2; OSave 0; OClean; OBare 6; OStart]%N in
+  table_ok t /\ listing_ok t olds0 /\ (forall op, In op ops -> op_ok t op) /\
+  map (fun o => fst (fst o)) (snap_model_obs 2 t (None :: olds0) ops) =
+    [[Some (0, Some 1); Some (4, Some 2); None]; [Some (0, Some 2); Some (4, Some 2); None];
+     [Some (0, Some 0); Some (0, Some 2); Some (4, Some 2)]; [None; Some (0, Some 0); Some (0, Some 2)];
+     [Some (6, None); Some (0, Some 0); Some (0, Some 2)]; [Some (6, None); Some (0, Some 0); Some (0, Some 2)]]%N.
+Proof. cbv zeta. split; [|split; [|split]].
+  - split; [simpl; repeat constructor; simpl; intuition discriminate|]. split.
+    + intros i es [E|[E|[E|[]]]]; injection E as <- <-; repeat constructor; unfold klt, ekey; simpl; lia.
+    + intros i j es [E|[E|[E|[]]]] [F|[F|[F|[]]]]; congruence.
+  - intros f [<-|[<-|[]]] m i E; [injection E as <- <-; unfold in_table; simpl; tauto|discriminate].
+  - intros op [<-|[<-|[<-|[<-|[<-|[<-|[]]]]]]]; unfold op_ok, in_table; simpl; tauto.
+  - vm_compute. reflexivity. Qed.
+
+(* export / import through a state manager (codes 1, 16, 17, 18). For every manager, retention, table, destination, datastore
+   order, stream (edited or not) and listing window, the model's own answers fail no monitor except in the shape of the two
+   listed findings (tag 1: origins-undecodable-import; tag 2: crdt-import-empty-panics) ... *)
+Theorem export_model_only_known_findings id mgr keep t src dst0 ord lines edited w :
+  order_oracle ord -> cid_sorted (pinset_of t src) ->
+  let exported := ord (pinset_of t src) in
+  (edited = false -> lines = map JPin exported) ->
+  forall c, In c (check_case (export_model_case id mgr keep t src dst0 exported lines edited w)) ->
+    (snd (fst c) = 17 \/ snd (fst c) = 18)%N /\
+    (snd c = 1%N /\ is_S19 exported = true \/ snd c = 2%N /\ is_empty_crdt_import mgr lines = true).
+Proof. exact (export_model_only_findings_l id mgr keep t src dst0 ord lines edited w). Qed.
+Print Assumptions export_model_only_known_findings.
+
+(* ... and outside them (no pin with origins; the crdt manager is not given an empty stream) no code at all *)
+Theorem export_model_passes_monitor id mgr keep t src dst0 ord lines edited w :
+  order_oracle ord -> cid_sorted (pinset_of t src) ->
+  let exported := ord (pinset_of t src) in
+  (edited = false -> lines = map JPin exported) ->
+  no_origins (pinset_of t src) -> (mgr <> 0%N -> lines <> []) ->
+  check_case (export_model_case id mgr keep t src dst0 exported lines edited w) = [].
+Proof. exact (export_model_passes_monitor_l id mgr keep t src dst0 ord lines edited w). Qed.
+Print Assumptions export_model_passes_monitor.
+
+(* no codes 16, 17, 18: the export lists exactly the source pinset; an unedited stream imports successfully and leaves exactly
+   that pinset; the import did not take the process down *)
+Theorem export_monitor_sound id mgr keep t src dst0 exported lines edited obs_res obs_after obs_listing :
+  (forall c, In c (check_case (id, PExport mgr keep t src dst0 exported lines edited obs_res obs_after obs_listing)) ->
+             snd (fst c) <> 16%N /\ snd (fst c) <> 17%N /\ snd (fst c) <> 18%N) ->
+  sorted_entries exported = pinset_of t src /\
+  (edited = false -> obs_res = 0%N /\ obs_after = pinset_of t src) /\
+  obs_res <> 2%N.
+Proof. exact (export_monitor_sound_l id mgr keep t src dst0 exported lines edited obs_res obs_after obs_listing). Qed.
+Print Assumptions export_monitor_sound.
+
+Example export_monitor_example :
+  let t := [(0, []); (1, [(3, (1, 0)); (5, (2, 0))]); (2, [(3, (1, 1))])]%N in
+  cid_sorted (pinset_of t 1) /\ no_origins (pinset_of t 1) /\
+  (* raft, destination holding pinset 2: the import replaces it and keeps it as old.0 *)
+  export_model_obs 0 2 t (Some 2%N) (map JPin (rev (pinset_of t 1))) 2 =
+    (0, pinset_of t 1, [Some (0, Some 1); Some (7, Some 2); None])%N /\
+  (* the two finding shapes: the monitor fails with their tags on the model's own answers *)
+  check_case (export_model_case 0 0 2 t 2 None (pinset_of t 2) (map JPin (pinset_of t 2)) false 1)%N = [(0, 17, 1)]%N /\
+  check_case (export_model_case 0 1 2 t 0 (Some 1%N) [] [] false 1)%N = [(0, 17, 2); (0, 18, 2)]%N.
+Proof. cbv zeta. split; [|split; [reflexivity|split; [|split]]]; try (vm_compute; reflexivity).
+  change (pinset_of _ 1%N) with [(3, (1, 0)); (5, (2, 0))]%N. repeat constructor; unfold klt, ekey; simpl; lia. Qed.
